@@ -185,10 +185,11 @@ func (u *Unit) stubFunc(st *State, instr ssa.Instruction, full string, args []Va
 		}
 		return one(st, succ), true
 	case "context.Background":
-		u.decls.Add("ctxBackground", "(declare-const ctxBackground Iface)\n(assert (not (= (ity ctxBackground) 0)))")
+		bg := u.ghost("ctxBackground", SIface)
 		u.declCtx()
-		st.assume(Not(app(SBool, "doneAtEntry", T{"ctxBackground", SIface})))
-		return one(st, T{"ctxBackground", SIface}), true
+		st.assume(Neq(app(SInt, "ity", bg), IntLit(0)))
+		st.assume(Not(app(SBool, "doneAtEntry", bg)))
+		return one(st, bg), true
 	case "context.WithTimeout", "context.WithCancel", "context.WithValue":
 		u.note("stub context.With*: returns a non-nil descendant context")
 		u.declCtx()
@@ -525,7 +526,7 @@ func (u *Unit) siteOrdinalAlloc(in ssa.Instruction) int {
 // checkSectionAsserts evaluates `at unlock:NAME assert` clauses: the
 // critical-section contract, relating acq(...) to the state at release.
 func (u *Unit) checkSectionAsserts(st *State, instr ssa.Instruction, name string) {
-	fs := u.specOfFrame(st)
+	fs := u.atSpec(st)
 	if fs == nil {
 		return
 	}
@@ -548,6 +549,10 @@ func (u *Unit) checkSectionAsserts(st *State, instr ssa.Instruction, name string
 		if c.Mark != "unlock:"+name && c.Mark != sited {
 			continue
 		}
+		if u.atHit == nil {
+			u.atHit = map[*Clause]bool{}
+		}
+		u.atHit[c] = true
 		env := u.newEnv(st)
 		env.acq = st.acq
 		g := u.evalBool(env, c.Expr)
@@ -564,6 +569,16 @@ func (u *Unit) specOfFrame(st *State) *FuncSpec {
 		return u.fs
 	}
 	return u.eng.spec.Funcs[relName(st.frame.fn)]
+}
+
+// atSpec: the contract whose `at` clauses apply at the current program point:
+// the frame's own, or - inside an inlined literal or helper without a contract -
+// the contract of the function being verified.
+func (u *Unit) atSpec(st *State) *FuncSpec {
+	if fs := u.specOfFrame(st); fs != nil {
+		return fs
+	}
+	return u.fs
 }
 
 func (u *Unit) propsFor(ps ...string) []string {
